@@ -59,7 +59,7 @@ CLAIMS['C13'] = dict(
          'concrete sequences of requests per process (not a solver claim).',
     ref='DESIGN.md §2 C13')
 CLAIMS['C14'] = dict(
-    text='Targets assembled from components (absolute / scheme-less / CONNECT authority form; reg-names, IPv4, six IPv6 spellings with '
+    text='Targets assembled from components (absolute / scheme-less / CONNECT authority form; reg-names (ASCII, and one symbolic two-byte UTF-8 character), IPv4, six IPv6 spellings with '
          'symbolic characters; symbolic port 1..65535 or absent; userinfo; symbolic path characters) run through Url.from_bytes and then '
          'through the real handler, connect_upstream and the REAL new_socket_connection down to a stubbed socket module: parsed host/port/path '
          'equal the components, default ports 80/443, exactly one OS-level connect to (host without brackets, port) with the right address '
@@ -92,7 +92,7 @@ CLAIMS['C19'] = dict(
 CLAIMS['C20'] = dict(
     text='(a) is_inactive() == (no pending output and now - last client-side activity > timeout) after every trace of <=3 (thorough 4) events '
          'over {client read, client flush, upstream data, upstream flush, output queued, nothing} with symbolic timeout and symbolic integer '
-         'clock increments, on a real established tunnel; (b) the real Threadless._cleanup_inactive on two works reaps exactly the idle ones; '
+         'clock increments, on a real established tunnel (also behind a TLS proxy endpoint); (b) the real Threadless._cleanup_inactive on two works reaps exactly the idle ones, also when a handle_events task is still reported pending; '
          '(c) the threaded run() loop leaves at the first iteration where the predicate holds; (d) SMT query on the tick arithmetic '
          'translated from _run_forever: from any tick within a period the reaper fires within period+1 iterations.',
     note='Clock is integer ticks: IEEE rounding of now-last at the threshold is outside the claim. Stubs: Clock, FakeSocket/Selector/Loop, '
@@ -114,7 +114,7 @@ CLAIMS['C04'] = dict(
          'proxy), same/different origins, with/without bodies, packed one per segment / all in one segment / split around the boundary; '
          'upstream stubs answer every complete request; asserts one response per request, in order, from the named origin, requests intact at '
          'each upstream, connection kept; web role with two independent route plugins and an unrouted follow-up (404); the last request '
-         'optionally announcing Connection: close. FOUR OPEN KNOWN FINDINGS (see known_findings.json, DESIGN 7.6) mask the other-origin '
+         'optionally announcing Connection: close; with --enable-conn-pool, a client that leaves with 0-1 answers outstanding followed by a second client asking the same origin (it receives exactly the answer to its own request). FOUR OPEN KNOWN FINDINGS (see known_findings.json, DESIGN 7.6) mask the other-origin '
          '(forward), other-upstream, literal-overtakes and follow-up-Connection-close (reverse proxy) obligations.',
     note='Trusted: CrossHair + z3, executor kit (FakeLoop/FakeSelector/FakeSocket), reference reader. Obligations matching a known finding are '
          'reported as masked_by_known_findings, not as discharged.',
@@ -124,7 +124,7 @@ CLAIMS['C05'] = dict(
          '(one arbitrary byte per run in 11 templates, incl. non-UTF-8), client-side abort (EOF/reset/EIO/EPIPE), upstream connect outcome '
          '(refused/timeout/resolution failure/unreachable) and upstream abort are chosen per obligation/solver, in forward, web and reverse '
          'roles, plus a websocket route (handshake, then frames with arbitrary length/opcode byte) and descriptor-number reuse while an '
-         'adversary that never drains loses its upstream; asserts no exception ever leaves the loop or _cleanup_inactive, every iteration '
+         'adversary that never drains loses its upstream, and adversaries that go quiet past --timeout and are reaped by the sweep; asserts no exception ever leaves the loop or _cleanup_inactive, every iteration '
          'terminates (call-count watchdog), the canary transcript equals its transcript when run alone, and a connection accepted afterwards '
          'is served.',
     note='Trusted: CrossHair + z3, executor kit; asyncio scheduling is stubbed (tasks complete when created), one adversary at a time.',
@@ -184,7 +184,7 @@ CLAIMS['C12'] = dict(
     text='Route table with static (1 and 3 URLs, explicit/default port, https, with/without path), overlapping, and dynamic routes (Url / '
          'literal response); request path = concrete prefixes + 0-2 symbolic characters, solver-chosen upstream index, methods, a header, '
          'body, --rewrite-host-header on/off: exactly one connect to (URL host, port or 80/443 by scheme), TLS wrap iff https, upstream path '
-         '= URL path, Host rewritten iff the option is on, other headers/body preserved, reply relayed unmodified; no route => 404 + close, '
+         '= URL path, Host rewritten iff the option is on, other headers/body preserved, reply relayed unmodified; Host spelled in other letter cases; a follow-up to the same route cut over two reads at 5 positions is forwarded once, intact; no route => 404 + close, '
          'no connect; sequences of 2-3 requests on new connections mixing a dynamic route that adjusts its parsed URL with a static route '
          'naming the same URL (state must not leak between requests).',
     note='Trusted: CrossHair + z3 (regex matching kept symbolic by the engine), reference reader, TcpServerConnection.wrap recorder. The '
